@@ -75,6 +75,20 @@ Lemma refuted_hide_set_inheritance :
   disagree w_inherit [tI "H"; tP "("; tP ","; tP ","; tI "B"; tP ")"].
 Proof. closed_disagree. Qed.
 
+(* a painted self-reference survives its context and the pre-expansion barrier (C11 6.10.3.4p2):
+     #define f(x) x + f   #define CALL(m) m(2)   CALL(f(1))   ->   1 + f(2)      (M = S; gcc, clang agree)
+     #define ID(x) x                              ID(f(1))(2)  ->   1 + f(2) *)
+Definition w_selfref :=
+  [def_fun ViaDefine [tIw "f"; tP "("; tI "x"; tP ")"; tIw "x"; tOw "+"; tIw "f"] "f" ["x"] false [tI "x"; tOw "+"; tIw "f"];
+   def_fun ViaDefine [tIw "CALL"; tP "("; tI "m"; tP ")"; tIw "m"; tP "("; tN "2"; tP ")"] "CALL" ["m"] false [tI "m"; tP "("; tN "2"; tP ")"];
+   def_fun ViaDefine [tIw "ID"; tP "("; tI "x"; tP ")"; tIw "x"] "ID" ["x"] false [tI "x"]].
+Lemma selfref_applied_conforms :
+  agree w_selfref [tI "CALL"; tP "("; tI "f"; tP "("; tN "1"; tP ")"; tP ")"]
+  /\ agree w_selfref [tI "ID"; tP "("; tI "f"; tP "("; tN "1"; tP ")"; tP ")"; tP "("; tN "2"; tP ")"]
+  /\ run_M_case w_selfref [tI "CALL"; tP "("; tI "f"; tP "("; tN "1"; tP ")"; tP ")"]
+     = DList [DStr "Ok"; DList [DStr "1"; DStr "+"; DStr "f"; DStr "("; DStr "2"; DStr ")"]].
+Proof. split; [closed_agree|split; [closed_agree|]]. vm_compute. reflexivity. Qed.
+
 (* the backstop: a chain a -> aa -> aaa -> ... of max_level object-like macros, the last one -> 1 *)
 Fixpoint rep (n : nat) : string := match n with O => "a" | S k => String "a" (rep k) end.
 Fixpoint chain (i n : nat) : list cmacro :=
